@@ -44,6 +44,12 @@ namespace sse
                 row = static_cast<std::size_t>(g.nr);
                 col = 0;
             }
+            else if (p.first >= 100000)
+            {
+                // raw (row, col) key, possibly out of range in one dimension only
+                row = static_cast<std::size_t>((p.first - 100000) / 100);
+                col = static_cast<std::size_t>((p.first - 100000) % 100);
+            }
             ov[{ row, col }] = to_lib(p.second);
         }
         std::array<fs::node_status, 4> bs{ to_lib(g.b[0]), to_lib(g.b[1]), to_lib(g.b[2]), to_lib(g.b[3]) };
